@@ -101,3 +101,15 @@ claim("C16", "T+P", "taint analysis of the ABSENT marker: sources/sinks/sanitise
       "One genuine deviation (externals are interacted eagerly at entry) is a known finding.",
       "Trusted: engine T base (see C01); DictPile(default=ABSENT) is the only defaulting lookup (checked).",
       "DESIGN.md section 6, C16")
+
+claim("C09", "T+P", "ContextVar token typestate on proceed.__enter__/__exit__ combined with template nesting facts (user yields emitted inside `with proceed(...)` without suspend/resume bracketing)",
+      "Decides the single structural cause behind all histories of C09: the activation's ContextVar modification is held across the whole with-block, and user yields stay real suspension points "
+      "inside it with nothing restoring the caller's collection. On the pinned tree this is a genuine defect (known finding with a concrete history); the check also guards that the token is only reset "
+      "at activation exit. The individual next/close/drop histories are not explored.",
+      "Trusted: ContextVar semantics (a generator runs in its caller's context); engine T base (see C01).",
+      "DESIGN.md section 6, C09")
+claim("C11", "T+P", "decision-table extraction (path enumeration over tag kinds) of match_tag/check_element, template queries for annotation routing, one-predicate and set-semantics shape rules",
+      "Decides the matching rule as a table for all tag kinds, the routing of annotations to every interaction for all programs (parameters and annotated assignments carry their annotation, "
+      "other bindings None), that one predicate decides instrumentation, delivery, fitting and verification, and the set algebra of tag sets. Which variables a user function tags is runtime (eval of annotations).",
+      "Trusted: engine T base (see C01). Shares the keyed-target naming finding with C02.",
+      "DESIGN.md section 6, C11")
